@@ -176,7 +176,7 @@ def h_chunk(H):
                 it.ctx.assume(ichunk >= 1)
             s0 = ichunk * chunk                      # extract_wfs_cbin: s0_arr = arange(0, ns, chunksize)
             s1 = z3.Int("s1")
-            it.ctx.assume(z3.And(s0 < ns, s1 > s0, s1 <= ns, z3.Or(s1 == s0 + chunk, s1 == ns)))
+            it.ctx.assume(s1 >= s0)
             V = A.fresh_array("recording", "float32", (ns, nc + nsync))     # calibrated samples x channels (C01)
 
             class VReader:
@@ -461,6 +461,129 @@ def h_table(H):
 def wrap_elem(uq, i):
     from pyvc.core import wrap
     return wrap(uq["values"](i))
+
+
+# ----------------------------------------------------------------------------- extract_wfs_cbin: chunks tile the recording, each table row goes to one chunk, job arguments
+def replay_chunks(vals, oid):
+    bad = []
+    for ns, chunk, jobs in ((6100, 500, 1), (6100, 6100, 1), (6001, 3000, 3), (5000, 7000, 2)):
+        b, _ = native_e2e(np.random.default_rng(ns + chunk), ns, chunk, jobs, sizes=[5, 16, 30], max_wf=16, seed=2, tail_spikes=True)
+        bad += [x for x in b if not (x[0] == "count" and x[-1] == "first_valid_index_selected")]
+    return {"failed": bool(bad), "examples": [repr(x)[:200] for x in bad[:3]]}
+
+
+@harness(PROPERTY, "extract_wfs_cbin_chunks", functions=["ibldsp.waveform_extraction:extract_wfs_cbin"], replay=replay_chunks,
+         clause="results do not depend on chunk size or worker count: the chunks tile the recording, every table row is handed to exactly one chunk job, with that chunk's bounds and the caller's window parameters")
+def h_chunks(H):
+    import ast
+    from pyvc import interp as I
+    S = H.session("cbin.chunks")
+    FN = WE.extract_wfs_cbin
+
+    def body(it):
+        ns, chunk, n, trough, L = z3.Ints("ns chunksize nrows trough_offset spike_length")
+        it.ctx.assume(z3.And(ns >= 1, chunk >= 1, n >= 0, trough >= 0, L >= 1, trough < L))
+        H.input(ns=ns, chunksize=chunk, nrows=n, trough_offset=trough, spike_length=L)
+        sample = A.fresh_array("sample", "int64", (n,), ranged=False)
+        k, k2 = z3.Int(fresh_name("k")), z3.Int(fresh_name("k"))
+        # the table of _make_wfs_table (harness make_wfs_table): rows in ascending spike order; spike times ascending (precondition of extract_wfs_cbin); valid spikes only
+        it.ctx.assume(z3.ForAll([k, k2], z3.Implies(z3.And(k >= 0, k < k2, k2 < n), sample.uf(k) <= sample.uf(k2)), patterns=[z3.MultiPattern(sample.uf(k), sample.uf(k2))]))
+        it.ctx.assume(z3.ForAll([k], z3.Implies(z3.And(k >= 0, k < n), z3.And(sample.uf(k) > trough, sample.uf(k) < ns - (L - trough))), patterns=[sample.uf(k)]))
+        table = pdmodel.SFrame({"sample": sample, "peak_channel": A.fresh_array("peak_channel", "int64", (n,), ranged=False), "waveform_index": A.fresh_array("waveform_index", "int64", (n,), ranged=False)})
+
+        class SR:
+            _pyvc_ok = True
+        sr = SR()
+        sr.ns = SV(ns)
+        node, filename = I.SOURCES.funcdef(FN)
+        it.session.note_function(FN)
+        env = I.Env(None, FN.__globals__, qualname="extract_wfs_cbin", filename=filename)
+        env.funcnode = node
+        tokens = {nm: "ARG:" + nm for nm in ("bin_file", "wfs", "h", "channel_labels", "channel_neighbors", "reader_kwargs", "preprocess_steps")}
+        env.vars.update(tokens)
+        env.vars.update(dict(sr=sr, chunksize_samples=SV(chunk), wf_flat=table, trough_offset=SV(trough), spike_length_samples=SV(L)))
+        it.ctx.func = env.qualname
+        want = {"s0_arr", "s1_arr", "num_chunks"}
+
+        def targets(st):
+            out = set()
+            for t_ in (st.targets if isinstance(st, ast.Assign) else []):
+                base = t_.value if isinstance(t_, ast.Subscript) else t_
+                if isinstance(base, ast.Name):
+                    out.add(base.id)
+            return out
+        done = set()
+        slices_node, par_node = None, None
+        for st in node.body:
+            tg = targets(st)
+            if tg and tg <= want:
+                it.exec_stmt(st, env)
+                done |= tg
+            elif tg == {"slices"} and isinstance(st.value, ast.ListComp):
+                slices_node = st.value
+            else:
+                for sub in ast.walk(st):
+                    if isinstance(sub, ast.GeneratorExp) and "write_wfs_chunk" in ast.unparse(sub.elt):
+                        par_node = sub
+        if done != want or slices_node is None or par_node is None or len(slices_node.generators) != 1 or len(par_node.generators) != 1:
+            raise I.Unsupported("cannot identify the chunk arrays / the per-chunk slices / the per-chunk jobs in extract_wfs_cbin()")
+        s0, s1 = env.vars["s0_arr"], env.vars["s1_arr"]
+        nchunk = term(env.vars["num_chunks"])
+        i = z3.Int("i_chunk")
+        it.ctx.oblige("chunks.count", z3.And(nchunk == A.T(s0.shape[0]), nchunk == A.T(s1.shape[0]), nchunk >= 1), "post")
+        it.ctx.assume(z3.And(i >= 0, i < nchunk))
+        it.ctx.oblige("chunks.cover_every_valid_spike_once", z3.And(s0.read((i,)) == i * chunk, s1.read((i,)) >= s0.read((i,)),
+                      z3.Implies(i < nchunk - 1, s1.read((i,)) == s0.read((i + 1,))), z3.Implies(i == nchunk - 1, s1.read((i,)) >= ns - (L - trough))), "post",
+                      "chunks start at multiples of the chunk size, follow each other without gap or overlap, and the last one reaches past the last sample a valid spike can have")
+        # rows handed to chunk i
+        cenv = I.Env(env, env.globs, qualname=env.qualname, filename=env.filename)
+        it.assign(slices_node.generators[0].target, SV(i), cenv)
+        sl = it.eval(slices_node.elt, cenv)
+        if not isinstance(sl, slice) or sl.step is not None:
+            raise I.Unsupported("the per-chunk selection of table rows is not a slice")
+        lo, hi = term(sl.start), term(sl.stop)
+        q = z3.Int("q")
+        it.ctx.oblige("chunks.rows_of_chunk", z3.And(lo >= 0, lo <= hi, hi <= n, A.forall([q], lambda: z3.Implies(z3.And(q >= 0, q < n), z3.And(q >= lo, q < hi) == z3.And(sample.read((q,)) >= s0.read((i,)), sample.read((q,)) < s1.read((i,)))))), "post",
+                      "the rows given to chunk i are exactly the spikes whose sample lies in the chunk (each row therefore goes to exactly one chunk, whatever the chunk size)", assume=False)
+
+        class PerChunk:
+            _pyvc_ok = True
+
+            def __getitem__(self_, j_):
+                cj = I.Env(env, env.globs, qualname=env.qualname, filename=env.filename)
+                it.assign(slices_node.generators[0].target, j_, cj)
+                return it.eval(slices_node.elt, cj)
+        env.vars["slices"] = PerChunk()
+        genv = I.Env(env, env.globs, qualname=env.qualname, filename=env.filename)
+        it.assign(par_node.generators[0].target, SV(i), genv)
+        call = par_node.elt
+        if not (isinstance(call, ast.Call) and isinstance(call.func, ast.Call)):
+            raise I.Unsupported("the per-chunk job is not delayed(write_wfs_chunk)(...)")
+        import inspect
+        names = list(inspect.signature(WE.write_wfs_chunk).parameters)
+        vals = {}
+        for nm, a_ in zip(names, call.args):
+            vals[nm] = it.eval(a_, genv)
+        for kw in call.keywords:
+            vals[kw.arg] = it.eval(kw.value, genv)
+        ok_tokens = all(vals.get(k_) == v_ for k_, v_ in (("cbin", tokens["bin_file"]), ("wfs_mmap", tokens["wfs"]), ("geom_dict", tokens["h"]), ("channel_labels", tokens["channel_labels"]),
+                                                         ("channel_neighbors", tokens["channel_neighbors"]), ("reader_kwargs", tokens["reader_kwargs"]), ("preprocess_steps", tokens["preprocess_steps"])))
+        it.ctx.oblige("chunks.job.shared_arguments", z3.BoolVal(bool(ok_tokens)), "post", "every job gets the same file, output array, header, labels, neighbour table and options")
+        srsl = vals.get("sr_sl")
+        it.ctx.oblige("chunks.job.own_chunk", z3.And(term(vals.get("i_chunk")) == i, z3.BoolVal(isinstance(srsl, tuple) and len(srsl) == 2), term(srsl[0]) == s0.read((i,)), term(srsl[1]) == s1.read((i,)),
+                      term(vals.get("chunksize_samples")) == chunk, term(vals.get("trough_offset")) == trough, term(vals.get("spike_length_samples")) == L), "post",
+                      "job i gets chunk index i, the bounds of chunk i, the chunk size and the caller's window offset / length")
+        sub = vals.get("wf_flat")
+        if not isinstance(sub, pdmodel.SFrame):
+            raise I.Unsupported("the rows handed to a job are not a row slice of the table")
+        m = A.T(sub.n)
+        col = sub["sample"].to_numpy()
+        wi = sub["waveform_index"].to_numpy()
+        it.ctx.oblige("chunks.job.own_rows", z3.And(m == hi - lo, A.forall([q], lambda: z3.Implies(z3.And(q >= 0, q < hi - lo), z3.And(col.read((q,)) == sample.read((lo + q,)), wi.read((q,)) == table["waveform_index"].to_numpy().read((lo + q,)))))), "post",
+                      "job i gets the table rows of chunk i (all columns of the same rows)", assume=False)
+        # what write_wfs_chunk's contract requires of its caller (harness write_wfs_chunk)
+        it.ctx.oblige("chunks.job.meets_write_wfs_chunk_precondition", A.forall([q], lambda: z3.Implies(z3.And(q >= 0, q < hi - lo), z3.And(col.read((q,)) >= s0.read((i,)), col.read((q,)) < s1.read((i,)), s0.read((i,)) == i * chunk))), "post", assume=False)
+    S.explore(body)
 
 
 # ----------------------------------------------------------------------------- make_channel_index: neighbours within the radius, ascending, padded
